@@ -1,9 +1,13 @@
 (* Property C20 — Valid calls on degenerate graphs return values or errors, never panic.
-   Only pinned statements.  This file covers the graph-structure API (mutations and
-   queries, whose models mark every unwrap / index / lookup of the Rust code as a Panic
-   site); the algorithm families carry their own no-panic / fuel-suffices theorems in
-   C04-C06, C10-C13, C18, C19.  The sweep over ALL public functions x 8 graph kinds x
-   degenerate shapes is the correspondence/oracle part of the check (harness mode `api`). *)
+   Only pinned statements.  First part: the graph-structure API (mutations and queries, whose
+   models mark every unwrap / index / lookup of the Rust code as a Panic site) and the shortest-path
+   entry points.  Second part (section C20_rollup and below): THE ROLL-UP - one C20_total_<function>
+   per other modelled public algorithm entry point (centrality, clustering, components, community,
+   generators, GraphML), derived from the family theorems of C05, C06, C09-C13, C16, C18, C14/C19 in
+   Proofs/TotalAll.v and Proofs/LouvainTotal.v, with one evaluated non-vacuity example per family.
+   The inventory of ALL public functions is DESIGN.md section 0.10.11 (tools/c20_inventory.py).  The
+   sweep over ALL public functions x 8 graph kinds x degenerate shapes is the correspondence/oracle
+   part of the check (harness mode `api`). *)
 From Coq Require Import List Bool.
 From GV Require Import Base.Outcome Base.AMap Model.GState Model.Creation Model.Query Spec.AGraph Spec.History.
 From GV Require Import Model.Derived.
